@@ -173,3 +173,18 @@ Theorem C10_judge_ternary_pivot : forall rec p1 p2 m n M m' n' M' v v' rest,
   (RelProofs.is01 (vget v V_TU) -> RelProofs.is01 (vget v' V_TU) -> vget v V_TU = vget v' V_TU).
 Proof. exact RelPivot.judge_rel_kind6_verdicts. Qed.
 Print Assumptions C10_judge_ternary_pivot.
+
+(* ---------- binary pivots (kind 7): regularity of a 0/1 matrix is invariant under GF(2) pivots ---------- *)
+From Cmr Require RegPivot RelPivot7 TuModel.
+Theorem C10_regular_binary_pivot : forall m n M r c,
+  wf_mat m n M = true -> is_binary M = true -> Nat.ltb r m = true -> Nat.ltb c n = true -> get M r c = 1 ->
+  TuModel.regular_bf m n (PivotModel.reduce 2 (PivotModel.pivot_raw m n M r c)) = TuModel.regular_bf m n M.
+Proof. exact RegPivot.regular_bf_bpivot_std. Qed.
+Print Assumptions C10_regular_binary_pivot.
+
+Theorem C10_judge_binary_pivot : forall rec p1 p2 m n M m' n' M' v v' rest,
+  RelProofs.rel_input rec = Some ((7, p1, p2, (m, n, M), (m', n', M'), v, v'), rest) -> judge_rel rec = 0 ->
+  TuModel.regular_bf m' n' M' = TuModel.regular_bf m n M /\
+  (RelProofs.is01 (vget v V_REG) -> RelProofs.is01 (vget v' V_REG) -> vget v V_REG = vget v' V_REG).
+Proof. exact RelPivot7.judge_rel_kind7_verdicts. Qed.
+Print Assumptions C10_judge_binary_pivot.
